@@ -584,6 +584,22 @@ package iterator
 //@   ensures !fo(a).IsDefined() && !fo(b).IsDefined() ==> protoAll(func() fp.Iterator[U] { return FilterMap(Of(a, b), fo) }, []U{})
 //@   ensures protoAll(func() fp.Iterator[T] { return Flatten(Of(Of[T](), Of(a, b), Of[T](), Of(c))) }, []T{a, b, c})
 //
+//@ lemma boundedMonadLaws[T, U, W any](a, b, c, d T, g func(T) U, h func(T) U, k func(U) W, q func(T) bool)
+//@   prop C01 C12
+//@   option unroll
+//@   ensures Eq(ToSeq(FlatMap(Of(a), func(t T) fp.Iterator[U] { return Of(g(t), h(t)) })), ToSeq(Of(g(a), h(a))))
+//@   tag leftIdentity
+//@   ensures Eq(ToSeq(FlatMap(Of(a, b, c), func(t T) fp.Iterator[T] { return Of(t) })), fp.Seq[T]{a, b, c})
+//@   tag rightIdentity
+//@   ensures Eq(ToSeq(FlatMap(FlatMap(Of(a, b), func(t T) fp.Iterator[U] { return Of(g(t), h(t)) }), func(u U) fp.Iterator[W] { return Of(k(u)) })), ToSeq(FlatMap(Of(a, b), func(t T) fp.Iterator[W] { return FlatMap(Of(g(t), h(t)), func(u U) fp.Iterator[W] { return Of(k(u)) }) })))
+//@   tag associativity
+//@   ensures q(a) && !q(b) && !q(c) && q(d) ==> Eq(ToSeq(FlatMap(Of(a, b, c, d), func(t T) fp.Iterator[U] { if q(t) { return Of(g(t)) }; return Of[U]() })), fp.Seq[U]{g(a), g(d)})
+//@   tag emptyInnersSkipped
+//@   ensures !q(a) && !q(b) && !q(c) ==> Eq(ToSeq(FlatMap(Of(a, b, c), func(t T) fp.Iterator[U] { if q(t) { return Of(g(t)) }; return Of[U]() })), fp.Seq[U]{})
+//@   tag allInnersEmpty
+//@   ensures Eq(ToSeq(Map(Of(a, b), g)), ToSeq(FlatMap(Of(a, b), func(t T) fp.Iterator[U] { return Of(g(t)) })))
+//@   tag mapIsFlatMapUnit
+//
 // Applicative / product combinators: the eager results are those of seq.Map2 /
 // seq.Ap (cartesian product, outer loop over the first argument).
 //
